@@ -225,25 +225,33 @@ ROOT_FIELD = {"query": "int", "mutation": "m", "subscription": "s"}
 ROOT_OBJ = {"query": "obj", "mutation": "mobj", "subscription": "sobj"}
 ROOT_TYPE = {"query": "Query", "mutation": "Mutation", "subscription": "Subscription"}
 DIRECTIVES = ["defer", "stream", "skip", "include", "deprecated", "unknown"]
-DARGS = ["if", "label", "initialCount", "reason"]
+DARGS = ["if", "label", "initialCount", "reason", ""]  # "" = the directive without arguments
 DLITS = ['"x"', "1", "true", "null", "$v", "[1]", "{a: 1}", "1.5", "E", "-1"]
-DSITES = ["inline", "field", "spread", "list_field"]
+DSITES = ["inline", "field", "spread", "list_field", "typename", "nested_typename", "schema_meta", "type_meta"]
 
 
-def directive_templates(d: int, a: int, lit: int, site: int, with_var: bool, *, op: int) -> bool:
+def directive_templates(d: int, a: int, lit: int, site: int, with_var: bool, *, op: int, site0: int = 0) -> bool:
     """Built-in directives with arbitrary (well- or ill-typed) arguments at every kind of site
     under every operation kind: errors are returned, never raised."""
     opk = OPS[op]
     dname = DIRECTIVES[forked(d, 0, len(DIRECTIVES))]
     arg = DARGS[forked(a, 0, len(DARGS))]
     litv = DLITS[forked(lit, 0, len(DLITS))]
-    sitek = DSITES[forked(site, 0, len(DSITES))]
-    dtext = "@" + dname + "(" + arg + ": " + litv + ")"
+    sitek = DSITES[site0 + forked(site, 0, 4)]
+    dtext = "@" + dname + ("(" + arg + ": " + litv + ")" if arg else "")
     head = opk + (" Q($v: Boolean)" if with_var else "")
     if sitek == "inline":
         body = "{ ... " + dtext + " { " + ROOT_FIELD[opk] + " } }"
     elif sitek == "field":
         body = "{ " + ROOT_FIELD[opk] + " " + dtext + " }"
+    elif sitek == "typename":  # introspection meta fields are not among the parent type's own fields
+        body = "{ __typename " + dtext + " }"
+    elif sitek == "nested_typename":
+        body = "{ " + ROOT_OBJ[opk] + " { __typename " + dtext + " id } }"
+    elif sitek == "schema_meta":
+        body = "{ __schema " + dtext + " { types { name } } }"
+    elif sitek == "type_meta":
+        body = "{ __type(name: \"Obj\") " + dtext + " { fields " + dtext + " { name } } }"
     elif sitek == "spread":
         body = "{ ...F " + dtext + " } fragment F on " + ROOT_TYPE[opk] + " { " + ROOT_FIELD[opk] + " }"
     else:
@@ -346,7 +354,7 @@ BOUNDS = {
         "variables: one of 10 variables set to None/int/float/str<=2/bool/[int]/[str,None]/dict/dict, operation name None or any str <= 2",
         "resolver failure: 8 resolver positions x 13 exception instances x raised/returned; 10 duplicate-response-key shapes x 3 variants",
         "did-you-mean: suggestion_list on every string <= 2 code points; enum variable value any string <= 2 with suggestions on",
-        "directive templates: 3 operation kinds x 6 directives x 4 argument names x 10 literals x 4 sites x with/without variable definition",
+        "directive templates: 3 operation kinds x 6 directives x (4 argument names x 10 literals | no arguments) x 8 sites (inline fragment, field, spread, list field, __typename at root and nested, __schema, __type and its list field) x with/without variable definition",
         "fragment cycles: 3 operation kinds x cycle length 1..3 x via inline fragment x nested",
     ],
     "thorough": ["as quick with tails of 1..3, pipeline strings <= 3, substitution on all 5 documents, lexer step up to 4 code points"],
@@ -388,7 +396,8 @@ def obligations(tier):
         obs.append(dict(fn="suggestions_total", cell=dict(length=n), budget_s=B))
         obs.append(dict(fn="enum_variable_with_suggestions", cell=dict(length=n), budget_s=B))
     for op in range(3):
-        obs.append(dict(fn="directive_templates", cell=dict(op=op), budget_s=B * 2))
+        for site0 in (0, 4):
+            obs.append(dict(fn="directive_templates", cell=dict(op=op, site0=site0), budget_s=B * 2))
     obs.append(dict(fn="fragment_cycles", cell={}, budget_s=B))
     obs.append(dict(fn="duplicate_response_keys", cell={}, budget_s=B))
     return obs
@@ -408,7 +417,11 @@ def corpus():
     yield "resolver_raises", {}, dict(field=2, exc=4, as_value=False)
     yield "suggestions_total", dict(length=2), dict(inp="ba")
     yield "enum_variable_with_suggestions", dict(length=3), dict(sv="RED")
-    yield "directive_templates", dict(op=0), dict(d=2, a=0, lit=2, site=1, with_var=False)
+    yield "directive_templates", dict(op=0, site0=0), dict(d=2, a=0, lit=2, site=1, with_var=False)
+    for op in range(3):
+        for site in range(4):
+            yield "directive_templates", dict(op=op, site0=4), dict(d=1, a=4, lit=0, site=site, with_var=False)
+            yield "directive_templates", dict(op=op, site0=4), dict(d=0, a=0, lit=2, site=site, with_var=True)
     yield "fragment_cycles", {}, dict(op=0, n=2, via_inline=False, nested=False)
     yield "duplicate_response_keys", {}, dict(k=0, variant=0)
     yield "duplicate_response_keys", {}, dict(k=4, variant=1)
